@@ -262,6 +262,20 @@ C11_OPS = ('refine', 'refine_bisect', 'refine_bisect_x', 'refine_bisect_edge', '
 PROGRAMS_C11 = [('p_edit', x) for x in EDITS if x[2] in C11_OPS]
 
 
+EDITS_THOROUGH = [((3, 3, 2, 0), 1, 'refine', (4,)), ((3, 3, 2, 0), 1, 'refine', (0, 1, 3)), ((3, 3, 2, 1), 2, 'refine', (4, 5, 7, 8)), ((3, 3, 2, 0), 0, 'refine_bisect', (4,)), ((3, 3, 2, 0), 0, 'refine_bisect_x', (3, 4, 5)),
+                  ((4, 3, 2, 0), 1, 'refine', (5, 6)), ((3, 3, 2, 2), 1, 'delete_column', (4,)), ((3, 3, 2, 0), 1, 'rename_swap', (0, 8)), ((3, 2, 4, 0), 2, 'refine_layers', (1, 2, 3, 2)), ((3, 2, 3, 0), 2, 'refine_layers', (2, 4)),
+                  ((3, 3, 3, 0), 3, 'snap_to_layers', ()), ((3, 3, 3, 0), 3, 'snap_to_nearest', ()), ((3, 3, 2, 0), 1, 'reduce', (0, 1, 3, 4)), ((3, 3, 2, 0), 1, 'translate', ()), ((3, 3, 2, 0), 1, 'decompose_columns', ()),
+                  ((4, 4, 2, 0), 0, 'refine_edge', (4, 5, 6, 9, 10, 1, 2, 4, 7, 8, 11, 13, 14)), ((3, 3, 2, 0), 1, 'delete_connection', (5,)), ((3, 3, 3, 0), 1, 'delete_layer', (2,))]
+
+
+def programs(tier):
+    return PROGRAMS + ([('p_edit', x) for x in EDITS_THOROUGH] if tier == 'thorough' else [])
+
+
+def programs_c11(tier):
+    return PROGRAMS_C11 + ([('p_edit', x) for x in EDITS_THOROUGH if x[2] in C11_OPS] if tier == 'thorough' else [])
+
+
 def replay(obname, model, result):
     if result['program'] != 'p_edit':
         return None
